@@ -2,6 +2,7 @@ import WK.Proofs.C09_WF
 import WK.Proofs.C09_Idx
 import WK.Proofs.C09_Strict
 import WK.Proofs.C09_RetFloor
+import WK.Proofs.C09_Rows
 import WK.Gen.C09
 /-
   C09 — storage mutations are crash-atomic.  Class PR.
@@ -195,6 +196,20 @@ theorem c09_ret_floor_appends_partial (s : Store) (op : Op) (h : RetFloor s)
 example : RetFloor [] := by intro ch l p m hg; simp [get, List.lookup] at hg
 example : (plan (run [] [.fetch 1 (some 2) [⟨7, 0, 0, 0, 1⟩, ⟨8, 0, 0, 0, 2⟩], .adopt 1 1, .trim 1 1 0])
     (.app 1 0 [⟨9, 0, 0, 0, 3⟩])).1 = .ok [2] := by decide
+
+/-- NO OVERWRITE: after the batch of ANY mutation, a stored row either was stored before with the same value or
+    its sequence lies strictly above the old recovered log end (⊔ RetainedMaxSeq): appends never overwrite a
+    row and never write into the retained (adopted / trimmed) range; the other mutations never put a row. -/
+theorem c09_rows_only_above_leo (s : Store) (op : Op) (ch q : Nat) (v : Val)
+    (hv : get (applyBatch s (plan s op).2) (.row ch q) = some v) : leo s ch < q ∨ get s (.row ch q) = some v :=
+  rows_after_plan s op ch q v hv
+
+/-- row sequences are positive at every crash point of every history -/
+theorem c09_each_prefix_rows_pos (ops : List Op) (k : Nat) : RowsPos (applyCommits [] ((commitsOf [] ops).take k)) :=
+  c09_each_prefix_inv RowsPos [] (by intro ch q v hv; simp [get, List.lookup] at hv) (fun s op h => rowsPos_stepG s op h) ops k
+
+/-- non-vacuity: after adopting a boundary beyond the log end the next append lands above it -/
+example : (plan (run [] [.app 1 0 [⟨7, 0, 0, 0, 1⟩], .adopt 1 5]) (.app 1 0 [⟨8, 0, 0, 0, 2⟩])).1 = .ok [5] := by decide
 
 /-- ACKNOWLEDGED ⇒ DURABLE, with at most one mutation in flight: after the mutations `acked`
     returned and while `op` is executing, the crash state is the store after `acked` or the store
